@@ -939,6 +939,70 @@ def gen_abstract(repo, outdir, notes):
     write_if_changed(os.path.join(outdir, "GenAbstract.v"), text)
 
 
+def gen_audit(repo, outdir, notes):
+    """audit/strict.py, report.py, common.py: dynamic-code calls, the subscript-target loop, static type tables"""
+    global CUR_FILE
+    dyn = []
+    for rel in ("nada_dsl/audit/strict.py", "nada_dsl/audit/report.py", "nada_dsl/audit/common.py", "nada_dsl/audit/__init__.py"):
+        m = Module(repo, rel)
+        for fn in ast.walk(m.tree):
+            if isinstance(fn, ast.FunctionDef):
+                for n in ast.walk(fn):
+                    if isinstance(n, ast.Call) and isinstance(n.func, ast.Name) and n.func.id in ("eval", "exec", "compile", "__import__"):
+                        dyn.append(f"({cstr(rel)}, {cstr(fn.name)}, {cstr(n.func.id)})")
+    st = Module(repo, "nada_dsl/audit/strict.py")
+    CUR_FILE = st.rel
+    types_fn = next(f for f in st.funcs if f.name == "types")
+    loops = [n for n in ast.walk(types_fn) if isinstance(n, ast.While)]
+    if len(loops) != 1:
+        raise ExtractError(st.rel, types_fn.lineno, f"expected exactly one while loop in types(), found {len(loops)}")
+    w = loops[0]
+    if ast.unparse(w.test) != "isinstance(target_, ast.Subscript)":
+        fail(w, "unrecognised loop condition in types()")
+    last = w.body[-1]
+    if not (isinstance(last, ast.If) and ast.unparse(last.test) == "isinstance(target_.value, (ast.Name, ast.Subscript))"
+            and len(last.body) == 1 and ast.unparse(last.body[0]) == "target_ = target_.value"):
+        fail(w, "unrecognised descent step of the subscript-target loop")
+    if not last.orelse:
+        breaks = False
+    elif len(last.orelse) == 1 and isinstance(last.orelse[0], ast.Break):
+        breaks = True
+    else:
+        fail(last, "unrecognised else branch of the descent step")
+    # any other assignment to target_ inside the loop would invalidate the model
+    assigns = [ast.unparse(n) for n in ast.walk(w) if isinstance(n, ast.Assign) and ast.unparse(n.targets[0]) == "target_"]
+    if assigns != ["target_ = target_.value"]:
+        fail(w, "the loop assigns target_ in an unrecognised way")
+    nfor = len([n for n in ast.walk(types_fn) if isinstance(n, (ast.For, ast.While))])
+    text = HEADER.format(src="audit/strict.py, audit/report.py, audit/common.py")
+    text += "Definition dynamic_code_calls : list (string * string * string) := " + clist(dyn) + ".\n"
+    text += f"Definition subscript_loop_breaks : bool := {'true' if breaks else 'false'}.\n"
+    text += "Definition loop_prefix : list string := " + clist([cstr(ast.unparse(x).replace(chr(10), ' ; ')) for x in w.body[:-1]]) + ".\n"
+    fns = {f.name: f for f in st.funcs}
+    for name in ("_types_base", "_types_list_monomorphic", "_types_list_monomorphic_depth", "_types_monomorphic", "strict", "rules",
+                 "_rules_restrictions_descendants"):
+        text += f"Definition src_{name.strip('_')} : list string :=\n  {stmts_src(fns[name].body)}.\n"
+    cm = Module(repo, "nada_dsl/audit/common.py")
+    cfn = {f.name: f for f in cm.funcs}
+    for name in ("typeerror_demote", "audits", "rules_no_restriction", "unify"):
+        text += f"Definition src_{name} : list string :=\n  {stmts_src(cfn[name].body)}.\n"
+    rp = Module(repo, "nada_dsl/audit/report.py")
+    rfn = {f.name: f for f in rp.funcs}
+    for name in ("parse", "locations", "type_to_str", "enrich_from_type", "enrich_syntaxrestriction", "enrich_keyword", "enrich_fromaudits"):
+        text += f"Definition src_{name} : list string :=\n  {stmts_src(rfn[name].body)}.\n"
+    # the static result-type tables as PyMini functions (used by C14)
+    tfuns = []
+    for name in ("_types_binop_mult_add_sub", "_types_compare"):
+        fd, err = try_fundef(fns[name])
+        if err:
+            notes.append(err)
+        tfuns.append(f"({cstr(name)}, {fd})")
+    cfd, err = try_fundef(cfn["typeerror_demote"])
+    tfuns.append(f"({cstr('typeerror_demote')}, {cfd})")
+    text += "Definition static_funs : list (string * fundef) :=\n  " + clist(["\n   " + x for x in tfuns]) + ".\n"
+    write_if_changed(os.path.join(outdir, "GenAudit.v"), text)
+
+
 def gen_classes_all(repo, outdir, notes):
     """Class table of every Nada value class (scalars and collections): MRO, defined methods,
     dataclass-generated __eq__.  Used by C07 (obliviousness)."""
@@ -971,6 +1035,7 @@ def main():
         gen_classes_all(repo, outdir, notes)
         gen_source_ref(repo, outdir, notes)
         gen_abstract(repo, outdir, notes)
+        gen_audit(repo, outdir, notes)
     except (ExtractError, KeyError, StopIteration, AttributeError) as e:
         print(f"EXTRACT-ERROR {e}")
         sys.exit(2)
